@@ -7,7 +7,10 @@ RULE = ("grammar derivations (DESIGN.md section 3; duplicate-free; incl. resolve
         "concatenations, numeric values, nested braces, multi-line values, comments between blocks; plus a stream whose field names, "
         "entry keys and @string keys are drawn from names with a meaning of their own in the model classes ('ID', 'ENTRYTYPE', attribute / "
         "metadata names, the int-rule field names), from letter-case variants of one another, and from the entry types / keys of the same "
-        "document) x BibtexFormat settings "
+        "document; plus a SIZE stream of plain documents with 1000+ pairwise different blocks (counts next to round numbers and powers of "
+        "two, every residue modulo 4 and 8; entries only / all block kinds / comments and free text / @string definitions with one "
+        "entry using 300 of them), counts next to 64..999, one entry with 257..1100 (thorough: ..4099) fields, and 1000+ levels of "
+        "braces in every block kind) x BibtexFormat settings "
         "(indent in {'', tab, 2/4 spaces}, value_column in {0,1,7,20,'auto'}, trailing_comma, whitespace-only block_separator in "
         "{'', '\\n', '\\n\\n', ' \\n\\t\\n'}); default parse and write stacks; distinct = distinct (document, format); "
         "non-trivial = the document has an entry with a field, or at least two blocks")
@@ -75,7 +78,126 @@ def generate(rng, tier):
         fmt = {"indent": rng.choice(INDENTS), "column": rng.choice(COLUMNS), "trailing": rng.random() < 0.5, "sep": rng.choice(SEPS)}
         cases.append({"stream": "names", "input": {"text": text, "fmt": fmt, "n_items": len(items)}})
         made += 1
+    # SIZE: documents with a thousand and more blocks (block counts on and next to round numbers and powers of two, every
+    # residue modulo 2 / 4 / 8), entries with hundreds of fields, a thousand @string definitions, deep brace nesting in every
+    # kind of block.  Each document is plain (size_doc); the blocks are pairwise different, so any block that is lost,
+    # doubled or moved shows in the comparison.
+    for spec in size_specs(rng, tier):
+        text, n_blocks = size_doc(spec)
+        fmt = {"indent": rng.choice(INDENTS), "column": rng.choice(COLUMNS), "trailing": rng.random() < 0.5, "sep": rng.choice(SEPS)}
+        cases.append({"stream": "size", "input": {"text": text, "fmt": fmt, "n_items": n_blocks, "size": spec}})
     return cases
+
+
+SIZE_SHAPES = ["entries", "mixed", "comments", "strings"]
+
+
+def size_specs(rng, tier):
+    """Descriptions of the SIZE documents of one run: {"shape", "n", "seed"} (size_doc turns one into text)."""
+    def spec(shape, n):
+        return {"shape": shape, "n": n, "seed": rng.randrange(1 << 30)}
+    out = []
+    # 1000+ blocks: the fixed counts cover every residue modulo 4 (and 8) right above the round number
+    big = [1001, 1002, 1003, 1337, 2049] if tier == "quick" else [1000, 1001, 1002, 1003, 1004, 1005, 1006, 1007, 1023, 1024, 1025,
+                                                                     1337, 2047, 2049, 3001, 4097, 5003, 10001]
+    shapes = list(SIZE_SHAPES)
+    rng.shuffle(shapes)
+    for k, n in enumerate(big):
+        out.append(spec(shapes[k % len(shapes)] if k >= 2 else ("entries", "mixed")[k], n))
+    for _ in range(1 if tier == "quick" else 24):
+        out.append(spec(rng.choice(SIZE_SHAPES), rng.randint(1000, 2200) | rng.choice([0, 1, 1, 2, 3])))
+    # counts around smaller round numbers / powers of two
+    small = [rng.choice([63, 65, 127, 129, 255, 257]), rng.choice([499, 501, 511, 513, 999])] if tier == "quick" else \
+        [63, 64, 65, 99, 101, 127, 129, 255, 256, 257, 499, 501, 511, 513, 767, 999]
+    for n in small:
+        out.append(spec(rng.choice(SIZE_SHAPES), n))
+    # entries with hundreds of fields
+    for n in ([257, 300, 513, rng.randint(600, 1100)] if tier == "quick" else [127, 129, 255, 256, 257, 258, 300, 511, 513, 1000, 1025, 2049, 4099]):
+        out.append(spec("fields", n))
+    # brace nesting of a thousand and more levels
+    for n in ([rng.randint(1000, 1400)] if tier == "quick" else [255, 257, 999, 1001, 1025, 2049, 5000]):
+        out.append(spec("deep", n))
+    return out
+
+
+def size_doc(spec):
+    """(text, number of blocks) of a SIZE document; deterministic in the description."""
+    import random
+    r = random.Random(spec["seed"])
+    shape, n = spec["shape"], spec["n"]
+
+    def value(i):
+        k = r.randrange(7)
+        if k == 0:
+            return "{v%d}" % i
+        if k == 1:
+            return '"T%d {B}r"' % i
+        if k == 2:
+            return str(1900 + i % 200)
+        if k == 3:
+            return "s%d" % r.randrange(max(1, n))                 # reference (defined before, after, or never)
+        if k == 4:
+            return "s%d # { %d} # \"~\"" % (r.randrange(max(1, n)), i)
+        if k == 5:
+            return "{two\n  lines %d}" % i
+        return "{{%d} \\& {n{e}}}" % i
+
+    def entry(i, nf=None):
+        nf = r.choice([0, 1, 1, 1, 2]) if nf is None else nf
+        typ = r.choice(["article", "book", "misc", "a"])
+        if nf == 0:
+            return "@%s{k%d%s}" % (typ, i, r.choice(["", ",", ",\n"]))
+        fs = ["%s = %s" % (("f%d" % j) if nf > 6 else ("author", "title", "year", "note", "month", "x")[j], value(i * 7 + j)) for j in range(nf)]
+        lay = r.randrange(3)
+        if lay == 0:
+            return "@%s{k%d,\n  %s\n}" % (typ, i, ",\n  ".join(fs))
+        if lay == 1:
+            return "@%s{k%d, %s}" % (typ, i, ", ".join(fs))
+        return "@%s{k%d,\n%s,\n}" % (typ, i, ",\n".join(fs))
+
+    def string(i):
+        return "@string{s%d = %s}" % (i, r.choice(['"S %d"', "{S{%d}}", "%d"]) % i)
+
+    def preamble(i):
+        return "@preamble{\\def\\p%d{}}" % i
+
+    def comment(i):
+        return "@comment{c%d, {b}}" % i
+
+    def free(i):
+        return r.choice(["%% free %d", "free %d\ntwo lines", "%% a = {%d},"]) % i
+
+    blocks = []
+    if shape == "entries":
+        blocks = [entry(i) for i in range(n)]
+    elif shape == "comments":
+        blocks = [comment(i) if i % 2 == 0 else free(i) for i in range(n)]
+    elif shape == "strings":
+        # definitions, some of them referring to the previous one, and one entry using a few hundred of them
+        for i in range(n - 1):
+            blocks.append("@string{s%d = s%d # {+}}" % (i, i - 1) if i % 10 == 9 else string(i))
+        refs = r.sample(range(n - 1), min(n - 1, 300))
+        blocks.insert(r.randrange(n), "@book{user,\n" + ",\n".join("  r%d = s%d" % (j, j) for j in refs) + "\n}")
+    elif shape == "mixed":
+        last_free = False
+        for i in range(n):
+            k = r.choice(["entry", "entry", "entry", "string", "preamble", "comment", "free"])
+            if k == "free" and last_free:
+                k = "comment"
+            last_free = k == "free"
+            blocks.append({"entry": entry, "string": string, "preamble": preamble, "comment": comment, "free": free}[k](i))
+    elif shape == "fields":
+        # one entry with n fields between two small blocks
+        blocks = [string(0), entry(1, nf=n), entry(2, nf=1)]
+    elif shape == "deep":
+        # n levels of braces inside each kind of block
+        nest = "{" * n + "x" + "}" * n
+        blocks = ["@comment{c " + nest + "}", "@preamble{" + nest + "}", "@string{s0 = " + nest + "}",
+                  "@article{k1, title = " + nest + ", other = \"q " + nest + "\" # s0}"]
+    else:
+        raise ValueError(shape)
+    gap = r.choice(["\n", "\n\n", "\n\n", " \n"])
+    return gap.join(blocks) + r.choice(["", "\n"]), len(blocks)
 
 
 NAME_POOL = ["ID", "ENTRYTYPE", "id", "Id", "entrytype", "EntryType", "key", "KEY", "entry_type", "fields", "fields_dict", "raw",
@@ -123,6 +245,8 @@ def impl(case):
         return l1, t1, l2, t2
     r = implutil.guarded(go)
     rec = {"key": str(hash((text, str(inp["fmt"])))), "tags": [case["stream"]]}
+    if inp.get("size"):
+        rec["tags"].append("size:" + inp["size"]["shape"])
     fm = inp["fmt"]
     rec["sx_in"] = [150, enc.enc_str(text), [enc.enc_str(fm["indent"]), ([] if fm["column"] == "auto" else [fm["column"]]),
                                             enc.enc_str(fm["sep"]), int(fm["trailing"]), enc.enc_str(bibtexparser.BibtexFormat().parsing_failed_comment)]]
@@ -161,4 +285,19 @@ def impl(case):
 
 
 def shrink(case):
-    return SC.shrink_text(case)
+    spec = case["input"].get("size")
+    if spec is None:
+        return SC.shrink_text(case)
+    return shrink_size(case, spec)
+
+
+def shrink_size(case, spec):
+    """Smaller documents of the same description (the text of a SIZE document is too long for character-wise shrinking)."""
+    n = spec["n"]
+    for m in (n // 2, n - 256, n - 64, n - 8, n - 4, n - 2, n - 1):
+        if 1 <= m < n:
+            sp = dict(spec, n=m)
+            text, n_blocks = size_doc(sp)
+            cc = dict(case)
+            cc["input"] = dict(case["input"], text=text, n_items=n_blocks, size=sp)
+            yield cc
